@@ -146,15 +146,12 @@ class MultiHarness(symex.Harness):
                     elif x is False:
                         self.counts["ans_false"] += 1
             msg = self.prop(res[1])
+        cond = Z.BoolVal(True)
         if isinstance(msg, tuple):           # ("vc", z3 condition under which the path is a violation, message)
-            m = eng.vc(msg[1])
-            msg = msg[2]
-            if m is None:
-                msg = None
-        elif msg:
-            m = eng.vc(Z.BoolVal(True))
-        if msg:
-            if m is not None and len(self.viol) < 20:
+            cond = msg[1]
+            msg = msg[2] if eng.vc(cond) is not None else None
+        if msg and len(self.viol) < 30:
+            for m in eng.models(cond, self.sb.vars, 3):
                 self.viol.append(dict(res=[res[0], _plain(res[1:]), msg], vars={str(v): concretise.model_int(m, v) for v in self.sb.vars}))
         if len(self.samples) < 2 and res[0] == "multi":
             ms = eng.vc(Z.BoolVal(True))
